@@ -12,7 +12,7 @@ PREP = {"e2e.C01.roundtrip": "w.", "e2e.C07.corrupt": "w."}
 
 # ops whose implementation observation carries extra statistics after the first word (e.g. "same ok",
 # "same conferr"): only the first word is compared with the model's answer
-FIRST_WORD_FNS = {"c10.schema", "c08.twin", "c08.known", "c15.versions", "c15.known", "c02.closure", "c02.known", "c19.origin", "c09.doc", "c09.known"}
+FIRST_WORD_FNS = {"c03.reject", "c10.schema", "c08.twin", "c08.known", "c15.versions", "c15.known", "c02.closure", "c02.known", "c19.origin", "c09.doc", "c09.known"}
 
 # property module -> (modules the script imports, script run with `lake env lean --run`): prints `<name>=true|false`
 PRECHECK = {
@@ -280,7 +280,7 @@ PROPS = {
     },
     "C12": {
         "lean_modules": ["TableauVerif.Props.C12", "TableauVerif.Props.C12Contig"],
-        "oracles": ["c12.range", "c12.contig", "c01.rt"],
+        "oracles": ["c12.range", "c12.contig", "c01.rt", "c12.refer"],
         "streams": [
             ("corr.fieldprop.range", 12000, 400000),
             ("e2e.C12.contiguity", 1200, 60000),
@@ -288,6 +288,7 @@ PROPS = {
             # "a satisfied constraint never causes an error or changes the output": well-formed sheets written by
             # the specification must be accepted with exactly their data (deduced uniqueness, contiguity, sizes)
             ("e2e.C01.roundtrip", 4000, 150000),
+            ("e2e.C12.refer", 300, 12000),
         ],
         "assumptions": [
             "modelled: fieldprop.CheckInRange (signed/unsigned integer kinds, string length), CheckMapKeySequence (signed keys), GetSize/IsFixed; float ranges answered by the implementation only (not modelled)",
@@ -310,8 +311,9 @@ PROPS = {
     },
     "C03": {
         "lean_modules": ["TableauVerif.Props.C03", "TableauVerif.Props.C03Frac", "TableauVerif.Props.C20Dur"],
-        "oracles": ["c03.parse", "c03.frac", "c03.cmp", "c20.dur"],
+        "oracles": ["c03.parse", "c03.frac", "c03.cmp", "c20.dur", "c03.reject"],
         "streams": [
+            ("e2e.C03.reject", 800, 30000),
             ("corr.xproto.duration", 10000, 200000),
             ("corr.xproto.parseFieldValue", 60000, 1500000),
             ("corr.xproto.fraction", 30000, 400000),
@@ -324,7 +326,7 @@ PROPS = {
     },
     "C07": {
         "lean_modules": ["TableauVerif.Props.C07", "TableauVerif.Props.C07Desc", "TableauVerif.Props.C07Header"],
-        "oracles": ["c07.position", "c07.desc", "c07.corrupt", "c07.skip", "tp.parse", "pg.errpos"],
+        "oracles": ["c07.position", "c07.desc", "c07.corrupt", "c07.skip", "tp.parse", "pg.errpos", "c07.book"],
         "streams": [
             ("corr.excel.position", 4000, 200000),
             ("corr.xerrors.newDesc", 6000, 300000),
@@ -332,6 +334,7 @@ PROPS = {
             ("corr.confgen.tableParse", 6000, 200000),
             ("corr.protogen.parseHeader", 8000, 200000),
             ("spec.C07.headerPos", 8000, 200000),
+            ("e2e.C07.book", 240, 10000),
         ],
         "assumptions": [
             "modelled: excel.LetterAxis/Postion, xerrors.ErrorKV/WrapKV/Error(), xerrors.NewDesc, the header cursor protogen's "
